@@ -11,8 +11,8 @@
     Oracles (answers of dependencies; per case from the real dependency in the correspondence run,
     universally quantified in the theorems): Unicode classes; the PEP 440 text syntax ([specparse] =
     VersionSpecifier::from_str, giving an order-preserving sort key of the version and the canonical
-    text); [url_oracle false] = url::Url::parse, [url_oracle true] = VerbatimUrl::from_path /
-    from_absolute_path after normalize_url_path (extension feature); [getenv] and [project_root]. *)
+    text); [url_oracle UParse] = url::Url::parse, [url_oracle UPath] = VerbatimUrl::from_path /
+    from_absolute_path, [url_oracle UFilePath] = the same after normalize_url_path (extension feature); [getenv] and [project_root]. *)
 From Coq Require Import List Bool NArith String Ascii.
 From PV Require Import Base.Order Base.CutDef DD.DDModel Names.NameModel Marker.Concrete Marker.Expr Text.Cursor Text.MarkerParse.
 Import ListNotations.
@@ -137,6 +137,11 @@ Definition looks_like_archive (p : text) : bool :=
        end && mem_text ext (map T ["bz2"; "xz"; "lz"; "lzma"; "gz"]%string))
   end.
 
+(** which external URL constructor an oracle query stands for: [UParse] = url::Url::parse on the text; [UPath] =
+    VerbatimUrl::from_path / from_absolute_path on the text as it stands; [UFilePath] = the same after
+    normalize_url_path (percent-decoding, the `file:` branch only). *)
+Inductive ukind := UParse | UPath | UFilePath.
+
 Section Req.
 Variables ws alpha alnum : N -> bool.
 Variable kw : list (text * mvalue).
@@ -145,7 +150,7 @@ Variable specpat : vop -> text -> option (vop * list N).
 Variable specver : vop -> text -> option (vop * list N).
 Variables pv pfv : N.
 Variable specparse : text -> option spec.
-Variable url_oracle : bool -> text -> option text.
+Variable url_oracle : ukind -> text -> option text.
 Variable getenv : text -> option text.
 Variable project_root : text.
 Variables verbatim ext : bool.
@@ -333,17 +338,17 @@ Definition dispatch_url (e : text) : option text :=
   match split_scheme e with
   | Some (sch, path) =>
       match scheme_parse sch with
-      | Some SFile => if ext then url_oracle true (strip_host path) else url_oracle false e
-      | Some SOther => url_oracle false e
-      | None => if ext then url_oracle true e else None
+      | Some SFile => if ext then url_oracle UFilePath (strip_host path) else url_oracle UParse e
+      | Some SOther => url_oracle UParse e
+      | None => if ext then url_oracle UPath e else None
       end
-  | None => if ext then url_oracle true e else None
+  | None => if ext then url_oracle UPath e else None
   end.
 Definition verbatim_parse_url (u : text) : option (text * option text) :=
   match dispatch_url (expand u) with Some d => Some (d, Some u) | None => None end.
 Definition parse_url_T (u : text) : option (text * option text) :=
   if verbatim then verbatim_parse_url u
-  else match url_oracle false u with Some d => Some (d, None) | None => None end.
+  else match url_oracle UParse u with Some d => Some (d, None) | None => None end.
 
 Definition parse_url (c : cursor) : pres (text * option text * cursor * option N) :=
   let c1 := eat_ws c in
